@@ -10,6 +10,7 @@ import ALV.Lemmas.C12Bank
 import ALV.Lemmas.C12Time
 import ALV.Lemmas.C12Gauss
 import ALV.Lemmas.C12Hist
+import ALV.Lemmas.C12Call
 import Mathlib.Analysis.SpecialFunctions.Complex.Arg
 import ALV.Common.Audit
 
@@ -431,6 +432,177 @@ theorem hist_freq_is_tree_response (heap : List (Obj ℂ)) (t : ℕ) (tree : Ban
   rw [hs]
   simp only [answerTree, elementwise, Bank.resp_eq_spec _ (Complex.exp_ne_zero _)]
 
+
+/-! ### 8. the call: `@elementwise("freq", 1)` around the raw method, python's argument binding -/
+
+/-- the points of the unit circle as a function of the frequency -/
+noncomputable def expPt : ℝ → ℂ := fun ω => Complex.exp (-(Complex.I * ω))
+
+/-- **C12.8a** EVERY call shape python can bind to `(self, freq)` — frequency by position
+(`f.freq_response(w)`), by keyword (`f.freq_response(freq=w)`), unbound with `self=` by keyword, the
+keywords in any order — gives the same thing: the raw method applied per element to the object
+bound to `freq` (scalar → scalar; list / tuple / deque / set → same kind; generator / Stream → lazy),
+each element being the transfer function / product over cascades / sum over parallel banks at
+`exp(-jω)`. -/
+theorem freq_call_eq_spec (t : Bank ℂ) (args : List (Arg ℝ)) (kw : KwArgs ℝ) (s a : Arg ℝ)
+    (h : bindParams ["self", "freq"] args kw = some [s, a]) :
+    freqCall expPt t args kw = freqCallSpec expPt t a := by
+  unfold freqCall rawFreq freqCallSpec
+  rw [wrapper_freq_of_bound _ _ _ _ s a h]
+  have : (fun f : ℝ => Bank.resp (expPt f) t) = fun f : ℝ => Bank.spec (expPt f) t :=
+    funext fun ω => bank_tree_eq_spec t ω
+  rw [this]
+
+/-- **C12.8b** the same in any field, at any non-zero points. -/
+theorem freq_call_field {K φ : Type} [Field K] [DecidableEq K] (pt : φ → K) (hpt : ∀ f, pt f ≠ 0)
+    (t : Bank K) (args : List (Arg φ)) (kw : KwArgs φ) (s a : Arg φ)
+    (h : bindParams ["self", "freq"] args kw = some [s, a]) :
+    freqCall pt t args kw = freqCallSpec pt t a := by
+  unfold freqCall rawFreq freqCallSpec
+  rw [wrapper_freq_of_bound _ _ _ _ s a h]
+  have : (fun f : φ => Bank.resp (pt f) t) = fun f : φ => Bank.spec (pt f) t :=
+    funext fun f => Bank.resp_eq_spec _ (hpt f) t
+  rw [this]
+
+/-- **C12.8c** the four spellings of a well-formed call, explicitly (`x` any object: scalar,
+container of any kind). -/
+theorem freq_call_shapes {K φ : Type} [Field K] [DecidableEq K] (pt : φ → K) (hpt : ∀ f, pt f ≠ 0)
+    (t : Bank K) (x : Arg φ) :
+    freqCall pt t [Arg.filt, x] [] = freqCallSpec pt t x ∧
+    freqCall pt t [Arg.filt] [("freq", x)] = freqCallSpec pt t x ∧
+    freqCall pt t [] [("self", Arg.filt), ("freq", x)] = freqCallSpec pt t x ∧
+    freqCall pt t [] [("freq", x), ("self", Arg.filt)] = freqCallSpec pt t x := by
+  refine ⟨?_, ?_, ?_, ?_⟩ <;>
+    exact freq_call_field pt hpt t _ _ Arg.filt x (by simp [bindParams, kwGetAll, kwGet])
+
+/-- **C12.8d** a list / tuple / deque / set / frozenset of frequencies (some of them possibly not
+numbers): the same kind of container of the pointwise responses; the call raises iff an element
+computation raises (TypeError for a non-number), with the first such exception. -/
+theorem freq_call_container {K φ : Type} [Field K] [DecidableEq K] (pt : φ → K) (t : Bank K)
+    (k : Kind) (hk : k = .seq ∨ k = .hash) (xs : List (Option φ)) :
+    freqCallSpec pt t (Arg.cont k (xs.map Elem.ofOpt)) =
+      match firstExc (xs.map (optResp fun f => Bank.spec (pt f) t)) with
+      | some e => .raised e
+      | none => .cast k (xs.map (optResp fun f => Bank.spec (pt f) t)) :=
+  broadcast_eager _ _ k hk xs
+
+/-- **C12.8e** generators & co (`SOME_GEN_TYPES`), Streams, chains: the call evaluates NOTHING;
+reading the result `n` times shows the responses before the first failing element, that exception
+once, and StopIteration from then on (a generator that raised is finished). -/
+theorem freq_call_lazy {K φ : Type} [Field K] [DecidableEq K] (pt : φ → K) (t : Bank K)
+    (k : Kind) (hk : k = .someGen ∨ k = .stream ∨ k = .chain) (xs : List (Option φ)) (n : ℕ) :
+    freqCallSpec pt t (Arg.cont k (xs.map Elem.ofOpt)) = .lazy k (xs.map (optResp fun f => Bank.spec (pt f) t)) ∧
+    genReads n (xs.map (optResp fun f => Bank.spec (pt f) t)) =
+      (trace (xs.map (optResp fun f => Bank.spec (pt f) t))).take n ++
+        List.replicate (n - (trace (xs.map (optResp fun f => Bank.spec (pt f) t))).length) NextObs.stop :=
+  ⟨broadcast_lazy _ _ k hk xs, genReads_spec _ n⟩
+
+/-- **C12.8f** a scalar frequency (any spelling of the number) gives the response itself, a
+non-number (None, a str — strings are not iterated) TypeError; dict / bytes come back only when
+empty, list_iterator & co never. -/
+theorem freq_call_scalar_and_uncastable {K φ : Type} [Field K] [DecidableEq K] (pt : φ → K) (t : Bank K)
+    (x : Option φ) (xs : List (Option φ)) :
+    freqCallSpec pt t ⟨.scalar, Elem.ofOpt x, []⟩ = Out.ofResp (optResp (fun f => Bank.spec (pt f) t) x) ∧
+    freqCallSpec pt t ⟨.str, Elem.ofOpt none, []⟩ = .raised .typeError ∧
+    freqCallSpec pt t (Arg.cont .noCtor (xs.map Elem.ofOpt)) = .raised .typeError ∧
+    freqCallSpec pt t (Arg.cont .emptyOnly (([] : List (Option φ)).map Elem.ofOpt)) = .cast .emptyOnly [] :=
+  ⟨broadcast_scalar _ _ _ (Or.inl rfl) x, broadcast_scalar _ _ _ (Or.inr rfl) none,
+   (broadcast_uncastable _ _ xs).1, (broadcast_uncastable _ _ []).2⟩
+
+/-- **C12.8g** a call python cannot bind (a keyword that is no parameter, too many positional
+arguments, `freq` twice, `self` missing): every element computation raises TypeError, so: no
+frequency object found → KeyError; otherwise scalar / non-empty eager container → TypeError at
+once, EMPTY eager container → the empty container, lazy kinds → a lazy result whose first read
+raises. -/
+theorem freq_call_unbound {K φ : Type} [Field K] [DecidableEq K] (pt : φ → K) (t : Bank K)
+    (args : List (Arg φ)) (kw : KwArgs φ) (h : bindParams ["self", "freq"] args kw = none) :
+    freqCall pt t args kw =
+      match (if 1 < args.length then args[1]? else kwGet "freq" kw) with
+      | none => .raised .keyError
+      | some a => broadcast (fun _ => some .typeError) a := by
+  unfold freqCall rawFreq
+  exact (wrapper_freq_of_unbound _ _ _ _ h).trans (wrapper_const _ _ _)
+
+/-- **C12.8h** in particular any keyword other than `self` / `freq` — e.g. a stray `name=` — makes
+the call unbindable, whatever else is passed. -/
+theorem freq_call_unexpected_keyword {φ : Type} (args : List (Arg φ)) (kw : KwArgs φ)
+    (h : ∃ kv ∈ kw, kv.1 ∉ ["self", "freq"]) : bindParams ["self", "freq"] args kw = none :=
+  bindParams_unexpected _ args kw h
+
+/-- **C12.8i** what the unbindable call shows for a container `Arg.cont k xs`. -/
+theorem freq_call_unbound_container {K φ : Type} (k : Kind) (xs : List (Elem φ)) :
+    broadcast (fun _ => some (Resp.typeError : Resp K)) (Arg.cont k xs) =
+      match k with
+      | .scalar | .str | .noCtor => .raised .typeError
+      | .someGen | .stream | .chain => .lazy k (xs.map fun _ => .typeError)
+      | .seq | .hash | .emptyOnly => if xs = [] then .cast k [] else .raised .typeError :=
+  broadcast_const_error k xs
+
+/-- **C12.8j** ANY call whatsoever (every list of positional arguments, every dict of keyword
+arguments, every kind of object in them): the decorated method as coded — wrapper dispatch, replaced
+argument, python's binding inside every element call — is the specification `freqCallSpecFull`
+(this is what the driver prints as "model" and "spec"). -/
+theorem freq_call_model_eq_spec {K φ : Type} [Field K] [DecidableEq K] (pt : φ → K) (hpt : ∀ f, pt f ≠ 0)
+    (t : Bank K) (args : List (Arg φ)) (kw : KwArgs φ) :
+    freqCall pt t args kw = freqCallSpecFull pt t args kw := by
+  unfold freqCallSpecFull
+  cases h : bindParams ["self", "freq"] args kw with
+  | none => exact freq_call_unbound pt t args kw h
+  | some vs =>
+    have hl := bindParams_length _ _ _ _ h
+    match vs, hl with
+    | [s, a], _ => exact freq_call_field pt hpt t args kw s a h
+
+/-! ### 9. `dft(blk, freqs, normalize=True)` as called -/
+
+/-- **C12.9a** the omitted `normalize` is `True`. -/
+theorem dft_call_default {K φ : Type} [Field K] (kern : φ → ℕ → K) (bk : BlkKind) (blk : List K)
+    (fs : Option (List φ)) : dftCall kern bk blk fs none = dftCall kern bk blk fs (some true) := rfl
+
+/-- **C12.9b** the call as coded is the defining sum (divided by `N` when normalised, also by
+default); ZeroDivisionError for the empty normalised block with a frequency; TypeError for a
+frequency object that is no iterable, and for a block without `len()` when normalised; a block that
+can be read only once (iterator, generator, Stream) gives the sum for the FIRST frequency and the
+empty sum for the others. -/
+theorem dft_call_eq_spec {K : Type} [Field K] [DecidableEq K] (bk : BlkKind) (blk : List K)
+    (ws : Option (List K)) (normalize : Option Bool) :
+    dftCall (fun (w : K) n => pw w n) bk blk ws normalize = dftCallSpec bk blk ws normalize := by
+  have hs : ∀ w : K, dftSum (fun n => pw w n) blk = evalDirect blk w := fun w => by
+    have := dftSum_pow w blk
+    simpa [pw_eq_pow] using this
+  unfold dftCall dftCallSpec
+  cases ws with
+  | none => rfl
+  | some ws =>
+    cases bk with
+    | sized =>
+      cases hn : normalize.getD true with
+      | false => simp [dft, dftSpec, hs]
+      | true =>
+        by_cases h : blk = [] ∧ ¬ ws = []
+        · simp [dft, h]
+        · simp [dft, h, dftSpec, hs, List.map_map]
+    | once =>
+      cases hn : normalize.getD true with
+      | true => simp
+      | false =>
+        cases ws with
+        | nil => simp
+        | cons w r => simp [dftSpec, hs]
+
+/-- **C12.9c** python's binding of `dft(...)`: by position, by keyword, or mixed, in any order of
+the keywords, the same three parameters are bound; `normalize` stays unbound when omitted. -/
+theorem dft_binding {V : Type} (b f n : V) :
+    bindDft [b, f] [] = some (b, f, none) ∧
+    bindDft [b, f, n] [] = some (b, f, some n) ∧
+    bindDft [b, f] [("normalize", n)] = some (b, f, some n) ∧
+    bindDft [b] [("freqs", f)] = some (b, f, none) ∧
+    bindDft [] [("freqs", f), ("blk", b)] = some (b, f, none) ∧
+    bindDft [] [("normalize", n), ("blk", b), ("freqs", f)] = some (b, f, some n) ∧
+    bindDft [b] [] = none ∧ bindDft [b, f, n, n] [] = none ∧
+    bindDft [b, f] [("freqs", f)] = none ∧ bindDft [b, f] [("norm", n)] = none := by
+  simp [bindDft]
+
 /-! ### non-vacuity: hypotheses are satisfiable, statements speak about non-trivial inputs -/
 
 example : respOfFilter [(1 : ℚ), 2, 3] [1, 1/2] 1 = Resp.val 4 := by decide +kernel
@@ -466,6 +638,24 @@ example : histModel (fun w : ℚ => w)
     = [.resp [.val 6], .popped 3 [2], .resp [.val 4], .out (some [2, 2])] := by decide +kernel
 example : (snap [Obj.bank true [1, 2], .leaf [(1 : ℚ), 1] [1], .leaf [2] [1, 1]] 4 0).map (Bank.resp 1)
     = some (.val 2) := by decide +kernel                                                -- hypothesis of 7b/7f
+
+-- the call: positional = keyword (the frequency object a tuple with a non-number in the middle, a generator)
+example : freqCall (fun w : ℚ => w) (.cascade [.filt [1, 1] [1], .filt [2] [1, 1]]) [Arg.filt]
+      [("freq", Arg.cont .seq [.num 1, .num 2])] = .cast .seq [.val 2, .val 2] := by decide +kernel
+example : freqCall (fun w : ℚ => w) (.filt [1, 1] [1]) [Arg.filt, Arg.cont .someGen [.num 1, .bad, .num 2]] []
+      = .lazy .someGen [.val 2, .typeError, .val 3] := by decide +kernel
+example : genReads 4 [Resp.val (2 : ℚ), .typeError, .val 3] = [.item (.val 2), .exc .typeError, .stop, .stop] := by
+  decide +kernel
+example : freqCall (fun w : ℚ => w) (.filt [1, 1] [1]) [Arg.filt] [("freq", Arg.cont .seq [.num 1]), ("name", Arg.ofElem (.num 1))]
+      = .raised .typeError := by decide +kernel                                   -- hypothesis of 8g/8h
+example : freqCall (fun w : ℚ => w) (.filt [1, 1] [1]) [Arg.filt] [("freq", Arg.cont .seq []), ("name", Arg.ofElem (.num 1))]
+      = .cast .seq [] := by decide +kernel
+example : freqCall (fun w : ℚ => w) (.filt [1, 1] [1]) [Arg.filt] [] = .raised .keyError := by decide +kernel
+example : bindParams ["self", "freq"] [] [("freq", Arg.ofElem (.num (1 : ℚ))), ("self", Arg.filt)]
+      = some [Arg.filt, Arg.ofElem (.num 1)] := by decide +kernel                  -- hypothesis of 8a/8b
+example : dftCall (fun (w : ℚ) n => pw w n) .once [1, 2, 3] (some [1, -1, 1]) (some false) = .ok [6, 0, 0] := by
+  decide +kernel
+example : dftCall (fun (w : ℚ) n => pw w n) .sized [1, 2, 3] (some [1]) none = .ok [2] := by decide +kernel
 
 end ALV.Props.C12
 
